@@ -95,8 +95,10 @@ func findFunc(l *Loaded, c *Contract) *ssa.Function {
 			return nil
 		}
 		name := c.Fn[dot+1:]
-		if m := l.prog.LookupMethod(tt.Type(), sp.Pkg, name); m != nil {
-			return m
+		if l.prog.MethodSets.MethodSet(tt.Type()).Lookup(sp.Pkg, name) != nil {
+			if m := l.prog.LookupMethod(tt.Type(), sp.Pkg, name); m != nil {
+				return m
+			}
 		}
 		ms := l.prog.MethodSets.MethodSet(types.NewPointer(tt.Type()))
 		for i := 0; i < ms.Len(); i++ {
